@@ -40,6 +40,7 @@ Fixpoint after_p (en : env) (props : list string) (pc : Z) (p : prog) (m : mstat
                    [loop_stmt pc pe (true_at pc) (Stmt pj (Jz pj (reify_e en pc c) (pe + 2)) :: flats (items en props (pj + 3) a))]))
                 (m_ctx m3) in
     after_p en props (pe + 2) r m4
+  | PExit off r => after_p en props (pc + 3) r (add_stmt m pc (Jump pc (pc + off)))
   end.
 
 Lemma agrees_p_jz en props pc c m pj x :
@@ -53,7 +54,7 @@ Lemma after_p_facts en props : forall p pc m, agrees_p en props m ->
   agrees_p en props (after_p en props pc p m) /\ m_stack (after_p en props pc p m) = m_stack m /\
   f_stmts (m_fn (after_p en props pc p m)) = f_stmts (m_fn m) ++ flats (items en props pc p).
 Proof.
-  induction p as [|s r IH|c a IHa r IHr|c a IHa eb IHe r IHr|c a IHa r IHr]; intros pc m Hag.
+  induction p as [|s r IH|c a IHa r IHr|c a IHa eb IHe r IHr|c a IHa r IHr|xoff r IH]; intros pc m Hag.
   - cbn [after_p items flats]. rewrite app_nil_r. auto.
   - cbn [after_p items flats flat_i].
     destruct (IH (pc + zlen (compile_s s)) (after_s en props pc s m) (agrees_after_s _ _ _ _ _ Hag)) as (H1 & H2 & H3).
@@ -93,6 +94,9 @@ Proof.
     destruct (IHr (pe + 2) m4 Hag4) as (R1 & R2 & R3).
     split; [exact R1|]. split; [rewrite R2; subst m4; cbn [m_stack]; rewrite A2; reflexivity|].
     rewrite R3. subst m4. cbn [m_fn f_stmts set_stmts]. rewrite <- app_assoc. reflexivity.
+  - cbn [after_p items flats flat_i].
+    destruct (IH (pc + 3) (add_stmt m pc (Jump pc (pc + xoff))) (agrees_add_stmt _ _ _ _ _ Hag)) as (H1 & H2 & H3).
+    split; [exact H1|]. split; [rewrite H2; reflexivity|]. rewrite H3. unfold add_stmt. cbn [m_fn f_stmts set_stmts]. rewrite <- app_assoc. reflexivity.
 Qed.
 
 Lemma u8_jz_bytes off : 0 <= off < 65536 -> u8 (b (off / 256)) * 256 + u8 (b off) = off.
@@ -122,71 +126,103 @@ Proof.
 Qed.
 
 Lemma items_nonempty en props pc p : p <> PNil -> items en props pc p <> [].
-Proof. destruct p; [congruence | discriminate | discriminate | discriminate | discriminate]. Qed.
+Proof. destruct p; [congruence | discriminate | discriminate | discriminate | discriminate | discriminate]. Qed.
 
-(* the programs of this file have no exit repeat *)
-Lemma items_no_exit en props : forall p pc pe, exits_gt pe (items en props pc p) = true /\ exits_done (items en props pc p) = true.
+(* the exits of a program with correct offsets leave the loop ending before pc + size + k; outside a loop there is none *)
+Lemma items_exits_gt en props : forall p pc k pe, exits_ok (Some k) p -> pe < pc + zlen (compile_p p) + k ->
+  exits_gt pe (items en props pc p) = true.
 Proof.
-  induction p as [|s r IH|c a IHa r IHr|c a IHa eb IHe r IHr|c a IHa r IHr]; intros pc pe; cbn [items exits_gt exits_done].
-  - split; reflexivity.
-  - cbn [exits_gt_i exits_done_i andb]. apply IH.
-  - rewrite exits_gt_if, exits_done_if.
-    split; apply andb_true_intro; split; [apply (proj1 (IHa _ _)) | apply (proj1 (IHr _ _)) | apply (proj2 (IHa _ pe)) | apply (proj2 (IHr _ pe))].
-  - rewrite exits_gt_ife, exits_done_ife.
-    split; apply andb_true_intro; split; try (apply andb_true_intro; split);
-      [apply (proj1 (IHa _ _)) | apply (proj1 (IHe _ _)) | apply (proj1 (IHr _ _)) | apply (proj2 (IHa _ pe)) | apply (proj2 (IHe _ pe)) | apply (proj2 (IHr _ pe))].
-  - cbn [exits_gt_i exits_done_i andb]. apply IHr.
+  induction p as [|s r IH|c a IHa r IHr|c a IHa eb IHe r IHr|c a IHa r IHr|xoff r IH]; intros pc k pe Hok Hpe; cbn [items exits_gt].
+  - reflexivity.
+  - cbn [exits_gt_i andb]. cbn [exits_ok] in Hok. cbn [compile_p] in Hpe. rewrite zlen_app in Hpe. apply (IH _ k); [exact Hok | lia].
+  - cbn [exits_ok oplus] in Hok. destruct Hok as [Ha Hr]. cbn [compile_p] in Hpe. rewrite !zlen_app in Hpe.
+    change (zlen (jz (3 + zlen (compile_p a)))) with 3 in Hpe.
+    rewrite exits_gt_if. apply andb_true_intro. split; [apply (IHa _ (k + zlen (compile_p r))); [exact Ha | lia] | apply (IHr _ k); [exact Hr | lia]].
+  - cbn [exits_ok oplus] in Hok. destruct Hok as (Ha & He & Hr). cbn [compile_p] in Hpe. rewrite !zlen_app in Hpe.
+    change (zlen (jz (3 + zlen (compile_p a) + 3))) with 3 in Hpe. change (zlen (jmp (3 + zlen (compile_p eb)))) with 3 in Hpe.
+    rewrite exits_gt_ife. apply andb_true_intro. split; [apply andb_true_intro; split|].
+    + apply (IHa _ (k + (3 + zlen (compile_p eb) + zlen (compile_p r)))); [exact Ha | lia].
+    + apply (IHe _ (k + zlen (compile_p r))); [exact He | lia].
+    + apply (IHr _ k); [exact Hr | lia].
+  - cbn [exits_ok] in Hok. destruct Hok as [_ Hr]. cbn [compile_p] in Hpe. rewrite !zlen_app in Hpe.
+    change (zlen (jz (3 + zlen (compile_p a) + 2))) with 3 in Hpe. rewrite zlen_cons, zlen_cons, zlen_nil in Hpe.
+    cbn [exits_gt_i andb]. apply (IHr _ k); [exact Hr | lia].
+  - cbn [exits_ok] in Hok. destruct Hok as [(k0 & Ek & Eoff) Hr]. injection Ek as <-. cbn [compile_p] in Hpe. rewrite zlen_app in Hpe.
+    change (zlen (jmp xoff)) with 3 in Hpe.
+    cbn [exits_gt_i orb]. apply andb_true_intro. split; [apply Z.ltb_lt; lia | apply (IH _ k); [exact Hr | lia]].
+Qed.
+Lemma items_exits_done en props : forall p pc, exits_ok None p -> exits_done (items en props pc p) = true.
+Proof.
+  induction p as [|s r IH|c a IHa r IHr|c a IHa eb IHe r IHr|c a IHa r IHr|xoff r IH]; intros pc Hok; cbn [items exits_done]; cbn [exits_ok oplus] in Hok.
+  - reflexivity.
+  - cbn [exits_done_i andb]. apply IH. exact Hok.
+  - rewrite exits_done_if. apply andb_true_intro. split; [apply IHa | apply IHr]; tauto.
+  - rewrite exits_done_ife. apply andb_true_intro. split; [apply andb_true_intro; split; [apply IHa | apply IHe] | apply IHr]; tauto.
+  - cbn [exits_done_i andb]. apply IHr. tauto.
+  - destruct Hok as [(k0 & Ek & _) _]. discriminate Ek.
+Qed.
+Lemma exit_free_ok : forall p k, exit_free p -> exits_ok k p.
+Proof.
+  induction p as [|s r IH|c a IHa r IHr|c a IHa eb IHe r IHr|c a IHa r IHr|xoff r IH]; intros k Hf; cbn [exits_ok exit_free] in *; try tauto.
+  - apply IH; exact Hf.
+  - split; [apply IHa | apply IHr]; tauto.
+  - split; [apply IHa | split; [apply IHe | apply IHr]]; tauto.
+  - split; [apply IHa | apply IHr]; tauto.
 Qed.
 
-Lemma items_wp wc en props : forall p pc, wf_p wc en p -> @wp wc pc (pc + zlen (compile_p p)) (items en props pc p).
+Lemma items_wp wc en props : forall p pc k, wf_p wc en p -> exits_ok k p -> @wp wc pc (pc + zlen (compile_p p)) (items en props pc p).
 Proof.
-  induction p as [|s r IH|c a IHa r IHr|c a IHa eb IHe r IHr|c a IHa r IHr]; intros pc Hwf.
+  induction p as [|s r IH|c a IHa r IHr|c a IHa eb IHe r IHr|c a IHa r IHr|xoff r IH]; intros pc k Hwf Hxk; cbn [exits_ok] in Hxk.
   - cbn [items compile_p]. rewrite zlen_nil. constructor. lia.
   - destruct Hwf as [Hs Hr]. cbn [items compile_p]. rewrite zlen_app.
     pose proof (reify_s_pos en props pc s) as Hpos.
     constructor; [apply reify_s_plain | lia |].
     apply (wp_lower (pc + zlen (compile_s s))); [|lia].
     replace (pc + (zlen (compile_s s) + zlen (compile_p r))) with (pc + zlen (compile_s s) + zlen (compile_p r)) by lia.
-    apply IH. exact Hr.
+    apply (IH _ k); [exact Hr | exact Hxk].
   - destruct Hwf as (Hwc & Hne & Hsz & Hwa & Hwr). cbn [items compile_p]. rewrite !zlen_app.
     change (zlen (jz (3 + zlen (compile_p a)))) with 3.
     pose proof (zlen_nonneg (compile_e c)). pose proof (zlen_nonneg (compile_p a)).
     set (pj := pc + zlen (compile_e c)). set (ea := pj + 3 + zlen (compile_p a)).
     constructor; [subst pj; lia | apply items_nonempty; exact Hne | |].
-    + apply (wp_lower (pj + 3)); [|lia]. apply IHa. exact Hwa.
+    + apply (wp_lower (pj + 3)); [|lia]. apply (IHa _ _ Hwa (proj1 Hxk)).
     + replace (pc + (zlen (compile_e c) + (3 + (zlen (compile_p a) + zlen (compile_p r))))) with (ea + zlen (compile_p r)) by (subst ea pj; lia).
-      apply IHr. exact Hwr.
+      apply (IHr _ _ Hwr (proj2 Hxk)).
   - destruct Hwf as (Hwc & Hne & Hne' & Hsz & Hsz' & Hwa & Hwe & Hwr). cbn [items compile_p]. rewrite !zlen_app.
     change (zlen (jz (3 + zlen (compile_p a) + 3))) with 3. change (zlen (jmp (3 + zlen (compile_p eb)))) with 3.
     pose proof (zlen_nonneg (compile_e c)). pose proof (zlen_nonneg (compile_p a)). pose proof (zlen_nonneg (compile_p eb)).
     set (pj := pc + zlen (compile_e c)). set (jp := pj + 3 + zlen (compile_p a)). set (je := jp + 3 + zlen (compile_p eb)).
     apply wp_ife; [subst pj; lia | apply items_nonempty; exact Hne | apply items_nonempty; exact Hne' | | lia | |].
-    + apply (wp_lower (pj + 3)); [|lia]. apply IHa. exact Hwa.
-    + apply IHe. exact Hwe.
+    + apply (wp_lower (pj + 3)); [|lia]. apply (IHa _ _ Hwa (proj1 Hxk)).
+    + apply (IHe _ _ Hwe (proj1 (proj2 Hxk))).
     + replace (pc + (zlen (compile_e c) + (3 + (zlen (compile_p a) + (3 + (zlen (compile_p eb) + zlen (compile_p r)))))))
         with (je + zlen (compile_p r)) by (subst je jp pj; lia).
-      apply IHr. exact Hwr.
+      apply (IHr _ _ Hwr (proj2 (proj2 Hxk))).
   - destruct Hwf as (Hwc & Hcond & Hsz & Hwa & Hwr). cbn [items compile_p]. rewrite !zlen_app.
     change (zlen (jz (3 + zlen (compile_p a) + 2))) with 3. rewrite zlen_cons, zlen_cons, zlen_nil.
     pose proof (zlen_nonneg (compile_e c)). pose proof (zlen_nonneg (compile_p a)).
     set (pj := pc + zlen (compile_e c)). set (pe := pj + 3 + zlen (compile_p a)).
-    apply wp_while; [lia | subst pj; lia | apply Hcond | | apply items_no_exit |].
-    + apply (wp_lower (pj + 3)); [|lia]. apply IHa. exact Hwa.
+    apply wp_while; [lia | subst pj; lia | apply Hcond | | apply (items_exits_gt en props a (pj + 3) 2 pe (proj1 Hxk)); subst pe; lia |].
+    + apply (wp_lower (pj + 3)); [|lia]. apply (IHa _ _ Hwa (proj1 Hxk)).
     + apply (wp_lower (pe + 2)); [|lia].
       replace (pc + (zlen (compile_e c) + (3 + (zlen (compile_p a) + (1 + (1 + 0) + zlen (compile_p r))))))
         with (pe + 2 + zlen (compile_p r)) by (subst pe pj; lia).
-      apply IHr. exact Hwr.
+      apply (IHr _ _ Hwr (proj2 Hxk)).
+  - destruct Hwf as [Hoff Hwr]. cbn [items compile_p]. rewrite zlen_app. change (zlen (jmp xoff)) with 3.
+    pose proof (zlen_nonneg (compile_p r)).
+    apply wp_exit; [lia|]. apply (wp_lower (pc + 3)); [|lia].
+    replace (pc + (3 + zlen (compile_p r))) with (pc + 3 + zlen (compile_p r)) by lia. apply (IH _ _ Hwr (proj2 Hxk)).
 Qed.
 
 (* ---- the statements collected so far lie before the current address ---- *)
 Definition sinv (pc : Z) (m : mstate) : Prop := Forall (fun st => st_ok st = true /\ pos_of st < pc) (f_stmts (m_fn m)).
 
-Lemma sinv_after wc en props p pc m : wf_p wc en p -> agrees_p en props m -> sinv pc m -> sinv (pc + zlen (compile_p p)) (after_p en props pc p m).
+Lemma sinv_after wc en props p pc m k : wf_p wc en p -> exits_ok k p -> agrees_p en props m -> sinv pc m -> sinv (pc + zlen (compile_p p)) (after_p en props pc p m).
 Proof.
-  intros Hwf Hag Hs. unfold sinv. destruct (after_p_facts en props p pc m Hag) as (_ & _ & E). rewrite E.
+  intros Hwf Hxk Hag Hs. unfold sinv. destruct (after_p_facts en props p pc m Hag) as (_ & _ & E). rewrite E.
   pose proof (zlen_nonneg (compile_p p)). apply Forall_app. split.
   - eapply Forall_impl; [|exact Hs]. intros x [H1 H2]. split; [exact H1 | lia].
-  - eapply Forall_impl; [|exact (flats_within _ _ _ (items_wp wc en props p pc Hwf))]. intros x (H1 & H2 & _). split; [exact H1 | lia].
+  - eapply Forall_impl; [|exact (flats_within _ _ _ (items_wp wc en props p pc k Hwf Hxk))]. intros x (H1 & H2 & _). split; [exact H1 | lia].
 Qed.
 Lemma sinv_add_jz en pc c m pj cond tgt : sinv pc m -> pc <= pj ->
   sinv (pj + 3) (add_stmt (with_stack (after_e en pc c m) (m_stack m)) pj (Jz pj cond tgt)).
@@ -220,20 +256,20 @@ Proof.
   rewrite E0, EB. reflexivity.
 Qed.
 
-Theorem exec_p wc en props : forall p, wf_p wc en p ->
+Theorem exec_p wc en props : forall p, wf_p wc en p -> forall k, exits_ok k p ->
   forall d off len a fuel r m,
     agrees_p en props m -> m_stack m = [] -> sinv a m -> code_at d a (compile_p p) -> off <= a -> a + zlen (compile_p p) <= off + len ->
     exists r', run_ops (ninstr_p p + fuel) d off len a r m
                = run_ops fuel d off len (a + zlen (compile_p p)) r' (after_p en props a p m).
 Proof.
-  induction p as [|s rest IH|c body IHa rest IHr|c body IHa ebody IHe rest IHr|c body IHa rest IHr]; intros Hwf d off len a fuel r m Hag Hst Hsi Hc Hoff Hlen.
+  induction p as [|s rest IH|c body IHa rest IHr|c body IHa ebody IHe rest IHr|c body IHa rest IHr|xoff rest IH]; intros Hwf k Hxk d off len a fuel r m Hag Hst Hsi Hc Hoff Hlen; cbn [exits_ok] in Hxk.
   - exists r. cbn [ninstr_p compile_p after_p Nat.add]. rewrite zlen_nil, Z.add_0_r. reflexivity.
   - destruct Hwf as [Hs Hr]. cbn [compile_p ninstr_p after_p] in *. rewrite zlen_app in *.
     apply code_at_app in Hc. destruct Hc as [Hcs Hcr].
     pose proof (zlen_nonneg (compile_s s)). pose proof (zlen_nonneg (compile_p rest)).
     replace (ninstr_s s + ninstr_p rest + fuel)%nat with (ninstr_s s + (ninstr_p rest + fuel))%nat by lia.
     destruct (exec_s en props s Hs d off len a (ninstr_p rest + fuel)%nat r m Hag Hst Hcs ltac:(lia) ltac:(lia)) as [r1 E1]. rewrite E1.
-    destruct (IH Hr d off len (a + zlen (compile_s s)) fuel r1 (after_s en props a s m) (agrees_after_s _ _ _ _ _ Hag)
+    destruct (IH Hr k Hxk d off len (a + zlen (compile_s s)) fuel r1 (after_s en props a s m) (agrees_after_s _ _ _ _ _ Hag)
                  (eq_trans (after_s_stack _ _ _ _ _) Hst) (sinv_after_s en props a s m Hsi) Hcr ltac:(lia) ltac:(lia)) as [r2 E2].
     rewrite E2. exists r2. f_equal. lia.
   - destruct Hwf as (Hwc & Hne & Hsz & Hwa & Hwr). cbn [compile_p ninstr_p after_p] in *.
@@ -260,12 +296,12 @@ Proof.
     assert (Hag2 : agrees_p en props m2) by (apply agrees_p_jz; split; assumption).
     assert (Hst2 : m_stack m2 = []) by (subst m2; cbn; exact Hst).
     assert (Hsi2 : sinv (pj + 3) m2) by (apply sinv_add_jz; [exact Hsi | subst pj; lia]).
-    destruct (IHa Hwa d off len (pj + 3) (ninstr_p rest + fuel)%nat r2 m2 Hag2 Hst2 Hsi2) as [r3 E3];
+    destruct (IHa Hwa _ (proj1 Hxk) d off len (pj + 3) (ninstr_p rest + fuel)%nat r2 m2 Hag2 Hst2 Hsi2) as [r3 E3];
       [replace (pj + 3) with (a + zlen (compile_e c) + 3) by (subst pj; lia); exact Hca | subst pj; lia | subst pj; lia |].
     rewrite E3.
     destruct (after_p_facts en props body (pj + 3) m2 Hag2) as (A1 & A2 & _).
-    destruct (IHr Hwr d off len (pj + 3 + zlen (compile_p body)) fuel r3 (after_p en props (pj + 3) body m2) A1 (eq_trans A2 Hst2)
-                  (sinv_after wc en props body (pj + 3) m2 Hwa Hag2 Hsi2)) as [r4 E4];
+    destruct (IHr Hwr _ (proj2 Hxk) d off len (pj + 3 + zlen (compile_p body)) fuel r3 (after_p en props (pj + 3) body m2) A1 (eq_trans A2 Hst2)
+                  (sinv_after wc en props body (pj + 3) m2 _ Hwa (proj1 Hxk) Hag2 Hsi2)) as [r4 E4];
       [replace (pj + 3 + zlen (compile_p body)) with (a + zlen (compile_e c) + 3 + zlen (compile_p body)) by (subst pj; lia); exact Hcr
       | subst pj; lia | subst pj; lia |].
     rewrite E4. exists r4. f_equal. subst pj. lia.
@@ -298,7 +334,7 @@ Proof.
     assert (Hag2 : agrees_p en props m2) by (apply agrees_p_jz; split; assumption).
     assert (Hst2 : m_stack m2 = []) by (subst m2; cbn; exact Hst).
     assert (Hsi2 : sinv (pj + 3) m2) by (apply sinv_add_jz; [exact Hsi | subst pj; lia]).
-    destruct (IHa Hwa d off len (pj + 3) (1 + (ninstr_p ebody + (ninstr_p rest + fuel)))%nat r2 m2 Hag2 Hst2 Hsi2) as [r3 E3];
+    destruct (IHa Hwa _ (proj1 Hxk) d off len (pj + 3) (1 + (ninstr_p ebody + (ninstr_p rest + fuel)))%nat r2 m2 Hag2 Hst2 Hsi2) as [r3 E3];
       [replace (pj + 3) with (a + zlen (compile_e c) + 3) by (subst pj; lia); exact Hca | subst pj; lia | subst pj; lia |].
     rewrite E3. fold jp.
     destruct (after_p_facts en props body (pj + 3) m2 Hag2) as (A1 & A2 & _).
@@ -314,14 +350,14 @@ Proof.
     destruct Hs2 as [r4 Hs2]. rewrite Nat.add_1_l. erewrite run_ops_step; [| subst jp pj; lia | exact Hs2].
     assert (Hag3 : agrees_p en props m3) by (apply agrees_add_stmt; exact A1).
     assert (Hst3 : m_stack m3 = []) by (subst m3; cbn [add_stmt m_stack]; rewrite A2; exact Hst2).
-    assert (Hsi3 : sinv (jp + 3) m3) by (subst m3; apply sinv_add_jump; subst ma jp; apply (sinv_after wc en props body (pj + 3) m2 Hwa Hag2 Hsi2)).
-    destruct (IHe Hwe d off len (jp + 3) (ninstr_p rest + fuel)%nat r4 m3 Hag3 Hst3 Hsi3) as [r5 E5];
+    assert (Hsi3 : sinv (jp + 3) m3) by (subst m3; apply sinv_add_jump; subst ma jp; apply (sinv_after wc en props body (pj + 3) m2 _ Hwa (proj1 Hxk) Hag2 Hsi2)).
+    destruct (IHe Hwe _ (proj1 (proj2 Hxk)) d off len (jp + 3) (ninstr_p rest + fuel)%nat r4 m3 Hag3 Hst3 Hsi3) as [r5 E5];
       [replace (jp + 3) with (a + zlen (compile_e c) + 3 + zlen (compile_p body) + 3) by (subst jp pj; lia); exact Hce
       | subst jp pj; lia | subst jp pj; lia |].
     rewrite E5.
     destruct (after_p_facts en props ebody (jp + 3) m3 Hag3) as (B1 & B2 & _).
-    destruct (IHr Hwr d off len (jp + 3 + zlen (compile_p ebody)) fuel r5 (after_p en props (jp + 3) ebody m3) B1 (eq_trans B2 Hst3)
-                  (sinv_after wc en props ebody (jp + 3) m3 Hwe Hag3 Hsi3)) as [r6 E6];
+    destruct (IHr Hwr _ (proj2 (proj2 Hxk)) d off len (jp + 3 + zlen (compile_p ebody)) fuel r5 (after_p en props (jp + 3) ebody m3) B1 (eq_trans B2 Hst3)
+                  (sinv_after wc en props ebody (jp + 3) m3 _ Hwe (proj1 (proj2 Hxk)) Hag3 Hsi3)) as [r6 E6];
       [replace (jp + 3 + zlen (compile_p ebody)) with (a + zlen (compile_e c) + 3 + zlen (compile_p body) + 3 + zlen (compile_p ebody)) by (subst jp pj; lia); exact Hcr
       | subst jp pj; lia | subst jp pj; lia |].
     rewrite E6. exists r6. f_equal. subst jp pj. lia.
@@ -352,7 +388,7 @@ Proof.
     assert (Hag2 : agrees_p en props m2) by (apply agrees_p_jz; split; assumption).
     assert (Hst2 : m_stack m2 = []) by (subst m2; cbn; exact Hst).
     assert (Hsi2 : sinv (pj + 3) m2) by (apply sinv_add_jz; [exact Hsi | subst pj; lia]).
-    destruct (IHa Hwa d off len (pj + 3) (1 + (ninstr_p rest + fuel))%nat r2 m2 Hag2 Hst2 Hsi2) as [r3 E3];
+    destruct (IHa Hwa _ (proj1 Hxk) d off len (pj + 3) (1 + (ninstr_p rest + fuel))%nat r2 m2 Hag2 Hst2 Hsi2) as [r3 E3];
       [replace (pj + 3) with (a + zlen (compile_e c) + 3) by (subst pj; lia); exact Hca | subst pj; lia | subst pj; lia |].
     rewrite E3. fold pe.
     destruct (after_p_facts en props body (pj + 3) m2 Hag2) as (A1 & A2 & A3).
@@ -372,7 +408,7 @@ Proof.
       rewrite Est.
       assert (HB : Forall (fun st => st_ok st = true /\ a <= pos_of st) (Stmt pj (Jz pj (reify_e en a c) (pe + 2)) :: flats (items en props (pj + 3) body))).
       { constructor; [split; [reflexivity | cbn [pos_of]; subst pj; lia]|].
-        eapply Forall_impl; [|exact (flats_within _ _ _ (items_wp wc en props body (pj + 3) Hwa))]. intros x (Hx1 & Hx2 & _). split; [exact Hx1 | subst pj; lia]. }
+        eapply Forall_impl; [|exact (flats_within _ _ _ (items_wp wc en props body (pj + 3) _ Hwa (proj1 Hxk)))]. intros x (Hx1 & Hx2 & _). split; [exact Hx1 | subst pj; lia]. }
       rewrite (filter_back a (f_stmts (m_fn m)) _ ltac:(eapply Forall_impl; [|exact Hsi]; intros x [_ Hx]; exact Hx)
                            ltac:(eapply Forall_impl; [|exact HB]; intros x [_ Hx]; exact Hx)).
       pose proof (remove_all_block (wc:=wc) (f_stmts (m_fn m)) (Stmt pj (Jz pj (reify_e en a c) (pe + 2)) :: flats (items en props (pj + 3) body)) [] a Hsi HB) as Er.
@@ -385,15 +421,29 @@ Proof.
     { subst m4. unfold sinv. cbn [m_fn f_stmts set_stmts]. apply Forall_app. split.
       - eapply Forall_impl; [|exact Hsi]. intros x [Hx1 Hx2]. split; [exact Hx1 | subst pe pj; lia].
       - constructor; [split; [reflexivity | cbn [pos_of L loop_stmt]; lia] | constructor]. }
-    destruct (IHr Hwr d off len (pe + 2) fuel r4 m4 Hag4 Hst4 Hsi4) as [r5 E5];
+    destruct (IHr Hwr _ (proj2 Hxk) d off len (pe + 2) fuel r4 m4 Hag4 Hst4 Hsi4) as [r5 E5];
       [replace (pe + 2) with (a + zlen (compile_e c) + 3 + zlen (compile_p body) + (1 + (1 + 0))) by (subst pe pj; lia); exact Hcr
       | subst pe pj; lia | subst pe pj; lia |].
     rewrite E5. exists r5. f_equal. subst pe pj. lia.
+  - (* exit repeat: a forward jump *)
+    destruct Hwf as [Hoffr Hwr]. cbn [compile_p ninstr_p after_p] in *. rewrite zlen_app in *. change (zlen (jmp xoff)) with 3 in *.
+    apply code_at_app in Hc. destruct Hc as [Hcm Hcr]. change (zlen (jmp xoff)) with 3 in Hcr.
+    pose proof (zlen_nonneg (compile_p rest)).
+    set (m1 := add_stmt m a (Jump a (a + xoff))).
+    assert (Hs : exists r', step d a r m = Ok (a + 3, r', m1)).
+    { apply (step_3 d a r m (b 147) (b (xoff / 256)) (b xoff) "FowardJumpOpcode" "" OFwdJump m1 Hcm); [vm_compute; reflexivity | reflexivity |].
+      cbn [process]. f_equal. subst m1. rewrite u8_jz_bytes by lia. reflexivity. }
+    destruct Hs as [r1 Hs]. cbn [Nat.add]. erewrite run_ops_step; [| lia | exact Hs].
+    assert (Hag1 : agrees_p en props m1) by (apply agrees_add_stmt; exact Hag).
+    assert (Hst1 : m_stack m1 = []) by (subst m1; cbn [add_stmt m_stack]; exact Hst).
+    assert (Hsi1 : sinv (a + 3) m1) by (subst m1; apply sinv_add_jump; exact Hsi).
+    destruct (IH Hwr _ (proj2 Hxk) d off len (a + 3) fuel r1 m1 Hag1 Hst1 Hsi1 Hcr ltac:(lia) ltac:(lia)) as [r2 E2].
+    rewrite E2. exists r2. f_equal. lia.
 Qed.
 
 (* ---- a whole handler: any nest of ifs over straight-line statements is rebuilt ---- *)
 Theorem nest_handler en props p d off fuel r m :
-  wf_p wcond_ok en p -> agrees_p en props m -> m_stack m = [] -> f_stmts (m_fn m) = [] ->
+  wf_p wcond_ok en p -> exits_ok None p -> agrees_p en props m -> m_stack m = [] -> f_stmts (m_fn m) = [] ->
   code_at d off (compile_p p ++ [b 1]) ->
   let pexit := off + zlen (compile_p p) in
   let exit_st := Stmt pexit (Call "exit" pexit None true false false) in
@@ -402,10 +452,10 @@ Theorem nest_handler en props p d off fuel r m :
     f_stmts (m_fn m') = flats (items en props off p) ++ [exit_st] /\
     detect (f_stmts (m_fn m')) = Ok (rebuilt en props off p ++ [exit_st]).
 Proof.
-  intros Hwf Hag Hst Hnil Hc pexit exit_st. rewrite zlen_app, zlen_cons, zlen_nil in *.
+  intros Hwf Hxk Hag Hst Hnil Hc pexit exit_st. rewrite zlen_app, zlen_cons, zlen_nil in *.
   apply code_at_app in Hc. destruct Hc as [Hcb Hce]. pose proof (zlen_nonneg (compile_p p)).
   assert (Hsi : sinv off m) by (unfold sinv; rewrite Hnil; constructor).
-  destruct (exec_p wcond_ok en props p Hwf d off (zlen (compile_p p) + (1 + 0)) off (1 + fuel)%nat r m Hag Hst Hsi Hcb ltac:(lia) ltac:(lia)) as [r1 E1].
+  destruct (exec_p wcond_ok en props p Hwf None Hxk d off (zlen (compile_p p) + (1 + 0)) off (1 + fuel)%nat r m Hag Hst Hsi Hcb ltac:(lia) ltac:(lia)) as [r1 E1].
   rewrite E1. set (m1 := after_p en props off p m).
   assert (Hs : step d pexit r1 m1 = Ok (pexit + 1, r1, add_stmt m1 pexit (Call "exit" pexit None true false false))).
   { apply (step_1 d pexit r1 m1 (b 1) "ExitOpcode" "" OExit _ Hce); [vm_compute; reflexivity | reflexivity | intros; reflexivity]. }
@@ -418,10 +468,10 @@ Proof.
   split; [exact Hf|]. rewrite Hf.
   (* the exit statement is one more plain item *)
   assert (Hwp : wpw off (pexit + 1) (items en props off p ++ [IPlain exit_st])).
-  { apply (wp_app off pexit); [apply items_wp; exact Hwf|].
+  { apply (wp_app off pexit); [apply (items_wp _ _ _ _ _ None); [exact Hwf | exact Hxk]|].
     apply wp_plain; [reflexivity | cbn [pos_of exit_st]; lia | apply wp_nil; cbn [pos_of exit_st]; lia]. }
   assert (Hxd : exits_done (items en props off p ++ [IPlain exit_st]) = true)
-    by (rewrite exits_done_app, (proj2 (items_no_exit en props p off 0)); reflexivity).
+    by (rewrite exits_done_app, (items_exits_done en props p off Hxk); reflexivity).
   pose proof (detect_nest _ _ _ Hwp Hxd) as Hd. rewrite flats_app, fins_app in Hd. cbn [flats flat_i fins fin_i app] in Hd.
   exact Hd.
 Qed.
